@@ -94,6 +94,10 @@ def run_bin(binary, args, timeout, cwd):
     return results, tail, None
 
 
+def chunk_args(prop, seed, first, n, tier, known):
+    return ["-sim.prop", prop, "-sim.seed", str(seed), "-sim.first", str(first), "-sim.runs", str(n), "-sim.tier", tier, "-sim.known", known, "-sim.recheck", "50"]
+
+
 def annotate(plan):
     """Adds a readable rendition of every payload next to its base64 form (ignored on replay)."""
     import base64
@@ -277,6 +281,21 @@ def run_check(a, prop, tier, seed, spec, scratch, t_start):
     plans_dir = os.path.join(scratch, "plans")
     os.makedirs(plans_dir, exist_ok=True)
 
+    if a.replay and (json.load(open(a.replay)).get("worlds")):
+        # a history across worlds: the violation needs state the program keeps for the life of the process
+        plan = json.load(open(a.replay))
+        wl, exp = plan["worlds"], plan.get("expect") or {}
+        res, tail, err = run_bin(binary, chunk_args(prop, wl["seed"], wl["first"], wl["runs"], wl["tier"], os.path.join(V, "known_findings.json")), 600, scratch)
+        if err:
+            die2("replay failed: %s\n%s" % (err, tail))
+        hit = [x for x in res if str(x.get("seed")) == str(exp.get("seed")) and any(v["prop"] == prop and v["rule"] == exp.get("rule") for v in x.get("viol") or [])]
+        if hit:
+            v = [v for v in hit[0]["viol"] if v["prop"] == prop and v["rule"] == exp.get("rule")][0]
+            print("replayed (%d worlds in one process): property=%s rule=%s sig=%s\n  %s" % (wl["runs"], prop, v["rule"], v.get("sig", ""), v["detail"]))
+            print("VIOLATION property=%s replay=%s" % (prop, os.path.abspath(a.replay)))
+            return 1
+        print("replay does not reproduce the recorded violation on this tree")
+        return 0
     if a.replay:
         res, tail, err = run_bin(binary, ["-sim.replay", os.path.abspath(a.replay)], 300, scratch)
         if err:
@@ -317,9 +336,11 @@ def run_check(a, prop, tier, seed, spec, scratch, t_start):
         left = deadline - time.time()
         if left <= 0.5:
             return None
-        args = ["-sim.prop", prop, "-sim.seed", str(seed), "-sim.first", str(first), "-sim.runs", str(n), "-sim.tier", tier,
-                "-sim.out", plans_dir, "-sim.known", os.path.join(V, "known_findings.json"), "-sim.recheck", "50", "-sim.budget", "%ds" % max(1, int(left))]
+        args = chunk_args(prop, seed, first, n, tier, os.path.join(V, "known_findings.json")) + ["-sim.out", plans_dir, "-sim.budget", "%ds" % max(1, int(left))]
         res, tail, err = run_bin(binary, args, left + 120, scratch)
+        for pos, x in enumerate(res or []):
+            x["_chunk"] = first
+            x["_pos"] = pos
         return (ch, res, tail, err)
 
     with ThreadPoolExecutor(max_workers=workers) as ex:
@@ -408,6 +429,46 @@ def run_check(a, prop, tier, seed, spec, scratch, t_start):
                 infra.append("confirmation replay of seed %s failed: %s" % (r["seed"], err))
                 continue
             rr = has_violation(res, prop, rule, sig)
+            if rr is None and "_chunk" in r and rule != "data-race":
+                # Not reproducible from its own plan. Does it reproduce when the worlds that ran before it in the same
+                # worker process run before it again? Then the program keeps state for the life of the process
+                # (package-level tables, caches) and the violation is a history across worlds: report it with the
+                # shortest run of worlds (ending with this one) that still shows it.
+                def chunk_hit(start):
+                    cres, _, cerr = run_bin(binary, chunk_args(prop, seed, start, r["_chunk"] + r["_pos"] + 1 - start, tier, os.path.join(V, "known_findings.json")), 300, scratch)
+                    if cerr:
+                        return None
+                    for x in cres:
+                        if x.get("seed") == r["seed"] and has_violation([x], prop, rule, sig):
+                            return x
+                    return None
+                last = r["_chunk"] + r["_pos"]
+                start = r["_chunk"]
+                x = chunk_hit(start)
+                if x is not None and chunk_hit(start) is not None:
+                    # shrink the prefix
+                    lo = start
+                    for _ in range(8):
+                        mid = (lo + last + 1) // 2
+                        if mid <= lo or mid > last:
+                            break
+                        if chunk_hit(mid) is not None:
+                            lo = mid
+                        else:
+                            break
+                    detail = next((vv["detail"] for vv in x.get("viol", []) if vv["prop"] == prop and vv["rule"] == rule and vv.get("sig", "") == sig), v["detail"])
+                    rdir = os.path.join(V, "replays") if a.src == "/repo" else os.path.join(tempfile.gettempdir(), "verif-seeded-replays")
+                    os.makedirs(rdir, exist_ok=True)
+                    path = os.path.join(rdir, "%s-%s-%s.worlds.json" % (prop, re.sub(r"[^A-Za-z0-9]+", "-", rule), r["seed"]))
+                    json.dump({"prop": prop, "worlds": {"seed": seed, "first": lo, "runs": last - lo + 1, "tier": tier},
+                               "note": "the violation does not reproduce from the world's own plan in a fresh process, but does whenever these worlds run before it in one process: the program keeps state across worlds (package-level state that outlives a configuration)",
+                               "expect": {"prop": prop, "rule": rule, "sig": sig, "seed": r["seed"], "detail": detail}}, open(path, "w"), indent=1)
+                    replay_files.append(path)
+                    out_lines.append("violation: property=%s rule=%s sig=%s seed=%s after %d earlier world(s) in the same process (%d runs hit it)\n  %s" % (prop, rule, sig, r["seed"], last - lo, len(items), detail.replace("\n", "\n  ")[:1500]))
+                    out_lines.append("VIOLATION property=%s replay=%s" % (prop, path))
+                    exit_code = 1
+                    confirmed = None
+                    break
             if rr is None:
                 infra.append("determinism: violation %s/%s of seed %s did not replay in a fresh process (hash %s vs %s)" % (rule, sig, r["seed"], r.get("hash"), res[0].get("hash") if res else None))
                 continue
